@@ -1,0 +1,63 @@
+//go:build verif
+
+// Property C03 for strategy.matrix: every scalar of the raw YAML values under rows, include and
+// exclude is scanned. `rawvisited` is the set of raw values entered by checkRawYAMLValue; its
+// contract says that entering a value enters all its children and scans its scalar, so by
+// induction every scalar below a visited value is scanned.
+
+package actionlint
+
+//@ ghost rawvisited: set<ref>
+
+//@ func (*RawYAMLString).Pos
+//@   ensures result == s.pos
+
+//@ func (*RuleExpression).checkRawYAMLString
+//@   props C03
+//@   anchor
+//@   ensures scanned[y.pos]
+
+//@ func (*RuleExpression).checkRawYAMLValue
+//@   props C03
+//@   anchor
+//@   effect rawvisited[v] = true
+//@   ensures istype(v, "*RawYAMLString") ==> scanned[dyn(v, "*RawYAMLString").pos]
+//@   ensures istype(v, "*RawYAMLArray") ==> (forall j :: 0 <= j && j < len(dyn(v, "*RawYAMLArray").Elems) ==> rawvisited[dyn(v, "*RawYAMLArray").Elems[j]])
+//@   ensures istype(v, "*RawYAMLObject") ==> (forall k: string :: dyn(v, "*RawYAMLObject").Props.has(k) ==> rawvisited[dyn(v, "*RawYAMLObject").Props[k]])
+//@   loop "range v.Props":
+//@     invariant forall kk: string :: visited(kk) ==> rawvisited[range_x[kk]]
+//@   loop "range v.Elems[1:]":
+//@     invariant forall jj :: 0 <= jj && jj <= range_i ==> rawvisited[range_x[jj]]
+//@     invariant forall j :: 0 <= j && j <= range_i + 1 ==> rawvisited[dyn(v, "*RawYAMLArray").Elems[j]]
+
+//@ func (*RuleExpression).checkMatrixRow
+//@   props C03
+//@   anchor
+//@   ensures r.Expression != nil ==> scanned[r.Expression.Pos]
+//@   ensures r.Expression == nil ==> (forall j :: 0 <= j && j < len(r.Values) ==> rawvisited[r.Values[j]])
+//@   loop "range r.Values":
+//@     invariant forall jj :: 0 <= jj && jj <= range_i ==> rawvisited[range_x[jj]]
+
+//@ func (*RuleExpression).checkMatrixExpression
+//@   props C03
+//@   ensures expr != nil ==> scanned[expr.Pos]
+
+//@ func (*RuleExpression).checkMatrix
+//@   props C03
+//@   anchor
+//@   ensures m.Expression != nil ==> scanned[m.Expression.Pos]
+//@   ensures m.Expression == nil ==> (forall k: string :: m.Rows.has(k) && m.Rows[k] != nil ==> ((m.Rows[k].Expression != nil ==> scanned[m.Rows[k].Expression.Pos]) && (m.Rows[k].Expression == nil ==> (forall j :: 0 <= j && j < len(m.Rows[k].Values) ==> rawvisited[m.Rows[k].Values[j]]))))
+//@   ensures m.Expression == nil && m.Exclude != nil && m.Exclude.Expression != nil ==> scanned[m.Exclude.Expression.Pos]
+//@   ensures m.Expression == nil && m.Exclude != nil && m.Exclude.Expression == nil ==> (forall j :: 0 <= j && j < len(m.Exclude.Combinations) ==> ((m.Exclude.Combinations[j].Expression != nil ==> scanned[m.Exclude.Combinations[j].Expression.Pos]) && (m.Exclude.Combinations[j].Expression == nil ==> (forall k: string :: m.Exclude.Combinations[j].Assigns.has(k) && m.Exclude.Combinations[j].Assigns[k] != nil ==> rawvisited[m.Exclude.Combinations[j].Assigns[k].Value]))))
+//@   ensures m.Expression == nil && m.Include != nil && m.Include.Expression != nil ==> scanned[m.Include.Expression.Pos]
+//@   ensures m.Expression == nil && m.Include != nil && m.Include.Expression == nil ==> (forall j :: 0 <= j && j < len(m.Include.Combinations) ==> ((m.Include.Combinations[j].Expression != nil ==> scanned[m.Include.Combinations[j].Expression.Pos]) && (m.Include.Combinations[j].Expression == nil ==> (forall k: string :: m.Include.Combinations[j].Assigns.has(k) && m.Include.Combinations[j].Assigns[k] != nil ==> rawvisited[m.Include.Combinations[j].Assigns[k].Value]))))
+//@   loop "range m.Exclude.Combinations":
+//@     invariant forall jj :: 0 <= jj && jj <= range_i ==> ((range_x[jj].Expression != nil ==> scanned[range_x[jj].Expression.Pos]) && (range_x[jj].Expression == nil ==> (forall k: string :: range_x[jj].Assigns.has(k) && range_x[jj].Assigns[k] != nil ==> rawvisited[range_x[jj].Assigns[k].Value])))
+//@   loop "range combi.Assigns":
+//@     invariant forall kk: string :: visited(kk) && range_x[kk] != nil ==> rawvisited[range_x[kk].Value]
+//@   loop "range m.Rows":
+//@     invariant forall kk: string :: visited(kk) && range_x[kk] != nil ==> ((range_x[kk].Expression != nil ==> scanned[range_x[kk].Expression.Pos]) && (range_x[kk].Expression == nil ==> (forall j :: 0 <= j && j < len(range_x[kk].Values) ==> rawvisited[range_x[kk].Values[j]])))
+//@   loop "range m.Include.Combinations":
+//@     invariant forall jj :: 0 <= jj && jj <= range_i ==> ((range_x[jj].Expression != nil ==> scanned[range_x[jj].Expression.Pos]) && (range_x[jj].Expression == nil ==> (forall k: string :: range_x[jj].Assigns.has(k) && range_x[jj].Assigns[k] != nil ==> rawvisited[range_x[jj].Assigns[k].Value])))
+//@   loop "range combi.Assigns" #2:
+//@     invariant forall kk: string :: visited(kk) && range_x[kk] != nil ==> rawvisited[range_x[kk].Value]
